@@ -92,6 +92,14 @@ Theorem C04_deletes_commute : forall bf m l k1 v1 k2 v2,
   oks (delete K V cmp veq layer b1 k1 v1) (fun b2 => same_tree K V a2 b2)))).
 Proof. exact (deletes_commute K V cmp veq layer cmp_eq cmp_antisym cmp_trans veq_eq layer_bound). Qed.
 
+Theorem C04_insert_delete_commute : forall bf m l k1 v1 k2 v2,
+  canon K V cmp layer bf m l -> k1 <> k2 -> lookup K V cmp k2 l = Some v2 ->
+  oks (insert K V cmp veq layer m k1 v1) (fun a1 =>
+  oks (delete K V cmp veq layer a1 k2 v2) (fun a2 =>
+  oks (delete K V cmp veq layer m k2 v2) (fun b1 =>
+  oks (insert K V cmp veq layer b1 k1 v1) (fun b2 => same_tree K V a2 b2)))).
+Proof. exact (insert_delete_commute K V cmp veq layer cmp_eq cmp_antisym cmp_trans veq_eq layer_bound). Qed.
+
 Theorem C04_listing_inserts_commute : forall k1 v1 k2 v2 l, k1 <> k2 -> ssorted K V cmp l ->
   upsert K V cmp k1 v1 (upsert K V cmp k2 v2 l) = upsert K V cmp k2 v2 (upsert K V cmp k1 v1 l).
 Proof. exact (upsert_upsert_comm K V cmp cmp_eq cmp_antisym cmp_trans). Qed.
@@ -220,3 +228,4 @@ Print Assumptions C04_listing_inserts_commute.
 Print Assumptions C04_listing_deletes_commute.
 Print Assumptions C04_listing_insert_delete_commute.
 Print Assumptions C04_deletes_commute.
+Print Assumptions C04_insert_delete_commute.
